@@ -51,7 +51,8 @@ def report_dir_with_archiving(top_dir, archive_dirname_callback):
 
 def _list_directories_for_rotation(top_dir, dir_prefix):
     dirs = {}
-    for dirname in glob.glob(os.path.join(top_dir, "%s*" % dir_prefix)):
+    # NB: the characters of top_dir itself must not be taken for glob wildcards
+    for dirname in glob.glob(os.path.join(glob.escape(top_dir), "%s*" % dir_prefix)):
         m = re.compile(r"^%s(\d+)$" % dir_prefix).search(os.path.basename(dirname))
         if m is not None:
             dirs[int(m.group(1))] = dirname
